@@ -304,5 +304,40 @@ pub async fn scenario() {
 		rt::probe("nontrivial");
 	}
 	drop(peer);
+	// ---- a server with the library's own GET proxy in front: GET on a mapped path is turned into a call (a documented
+	// feature); every other non-POST method must still be answered 405 and reach no handler, on mapped paths too
+	if rt::chance("proxy_layer", 1, 5) {
+		rt::probe("proxy_layer");
+		let (stop, _handle) = jsonrpsee_server::stop_channel();
+		let http_mw = tower::ServiceBuilder::new().layer(jsonrpsee_server::middleware::http::ProxyGetRequestLayer::new([("/health", "echo")]).expect("valid path"));
+		let mut svc = jsonrpsee_server::Server::builder().set_http_middleware(http_mw).to_service_builder().build(world.methods.clone(), stop);
+		for _ in 0..rt::draw_range("proxy_reqs", 1, 4) {
+			let method = *rt::pick("proxy_method", &["GET", "HEAD", "OPTIONS", "TRACE", "PUT", "DELETE", "PATCH"]);
+			let path = *rt::pick("proxy_path", &["/health", "/health", "/", "/other"]);
+			let before = world.log.lock().unwrap().invocations.len();
+			let req = http::Request::builder().method(method).uri(path).header("host", "sim.invalid").body(http_body_util::Full::new(Bytes::new())).unwrap();
+			let resp = match tower::Service::call(&mut svc, req).await {
+				Ok(r) => world::collect_response(r).await,
+				Err(e) => {
+					rt::event("proxy-service-error", format!("{e}"));
+					continue;
+				}
+			};
+			let ran = world.log.lock().unwrap().invocations.len() - before;
+			rt::event("proxy-reply", format!("{method} {path} -> {} ({ran} handler runs)", resp.status));
+			if method == "GET" && path == "/health" {
+				if resp.status != 200 || ran != 1 {
+					rt::violate(P, "proxy-get", "mapped-path", format!("GET {path} through the GET proxy was answered {} with {ran} handler runs (expected 200 and one run of the mapped method)", resp.status));
+				}
+			} else {
+				if resp.status != 405 {
+					rt::violate(P, "method-gate", format!("{method}:behind-get-proxy"), format!("{method} {path} was answered {} instead of 405 (GET proxy installed)", resp.status));
+				}
+				if ran != 0 {
+					rt::violate(P, "handler-ran-behind-gate", format!("{method}:behind-get-proxy"), format!("a handler ran for {method} {path} (GET proxy installed)"));
+				}
+			}
+		}
+	}
 	world.drop_stop_handle();
 }
